@@ -245,9 +245,13 @@ def timer_rules(ctx):
         snap = not _self_attr(lp.iter)
         if snap:
             # membership re-check of the live list before the callback
-            rechecks = [n for n in ast.walk(lp) if isinstance(n, ast.Compare) and any(isinstance(o, (ast.In, ast.NotIn)) for o in n.ops)
-                        and any(_self_attr(c) and c.attr == "_timer_events" for c in n.comparators)]
             inst = "timer dispatch over a snapshot re-checks liveness before calling"
+            rechecks = False
+            for r in _timer_loop_runs(ctx, j):
+                for i, e in r.effects():
+                    if e.kind == "call" and e.value[1][0] == "sub" and e.value[1][2] == ("c", "callback"):
+                        evs = e.value[1][1]
+                        rechecks = (("cmp", "in", evs, field("_timer_events")), True) in lits(r.guards(i))
             if rechecks:
                 ctx.holds("R-LIVE-CHECK", inst)
             else:
